@@ -280,10 +280,11 @@ class AbsType(AbstractValue):
     """An abstract block token type for the dispatch loop: start() is undecided per line; read()
     consumes `consume` lines."""
 
-    def __init__(self, name, consume, log):
+    def __init__(self, name, consume, log, yields_token=True):
         self.name = name
         self.consume = consume
         self.log = log
+        self.yields_token = yields_token       # False: constructing it gives None (a link reference definition)
 
     def abs_getattr(self, interp, name):
         from ..domains import _AbsBound
@@ -309,7 +310,7 @@ class AbsType(AbstractValue):
     def abs_call(self, interp, args, kwargs):
         # constructing the token: it remembers what read() returned, so that the number it is given can be compared
         # with the line its block started on
-        return CapturedToken(args[0] if args else None)
+        return CapturedToken(args[0] if args else None) if self.yields_token else None
 
 
 class CapturedToken(AbstractValue):
@@ -336,13 +337,15 @@ def rule_capture(ctx, rep):
     n_paths = 0
     n_entries = 0
     bad = None
-    for consume in (1, 2):
+    for consume in (1, 2, 0):
         def run(oracle, consume=consume):
-            it = Interp(model, loop_bound=1, while_bound=5)
+            it = Interp(model, loop_bound=4, while_bound=5)
             it.reset_run(oracle)
             log = []
             lines = [AbsStr(label='line%d' % i) for i in range(3)]
-            types = [AbsType('T1', consume, log), AbsType('T2', 1, log)]
+            # third scenario: a type whose blocks construct to nothing (a definition) among types that yield tokens
+            types = [AbsType('T1', consume, log), AbsType('T2', 1, log)] if consume else \
+                [AbsType('T0', 1, log, yields_token=False), AbsType('T2', 1, log)]
             try:
                 pb = it.call_function(tb, [lines, types], {'start_line': S})
                 # the entries' layout is the tokenizer's own business: the tokens are made by its own make_tokens
